@@ -1,4 +1,5 @@
 import SSVerif.Proofs.JsonMem
+set_option linter.unusedSimpArgs false
 /-! C14 helper lemmas: each formatting function, in the dry run and in the writing run, produces exactly the
 compact print of the corresponding tree -/
 namespace SSVerif.Json
